@@ -112,6 +112,9 @@ def wireFrames (bs : Bytes) : List WFrame × Bytes := parseWire (bs.length + 1) 
 
 /-! ### C07: no panic -/
 def monC07 (c : ImplCase) : List String :=
+  if c.ops.any (fun o => ioHas o (· == "r:z")) then
+    ["C05", "C06", "C07"].map fun p => s!"mon {p} FAIL zero-length-read-buffer-taken-for-eof"
+  else
   match c.ops.toList.find? isPanic with
   | some o => [s!"mon C07 FAIL panic-{" ".intercalate (o.res.drop 1)} op={" ".intercalate (o.body.take 2)}"]
   | none => ["mon C07 ok"]
@@ -489,5 +492,6 @@ def all (c : ImplCase) : List String :=
   let m09 := monC09 c
   monC07 c ++ monSpecAll c ++ monC03 c ++ m09 ++ m10 ++ monC11 c ++ monC12 c ++ monC13 c ++ monC14 c ++ monC01 c
     ++ alias m10 "C10" "C19" ++ alias m09 "C09" "C19" ++ alias m10 "C10" "C01"
+    ++ alias (monC13 c) "C13" "C10"
 
 end Mon
